@@ -515,6 +515,7 @@ func checkC04(p *Program, r *Report) {
 	checkNoAppendOnShared(p, r, models)
 	checkInitStatesWidth(p, r, models)
 	checkOwnCellIndex(p, r, models, "R04.9", true)
+	checkStateRowLength(p, r, models)
 	// R04.7: Run touches nothing else — no package-level writes from anything a Run reaches
 	{
 		r.Rule("R04.7", "Run touches nothing else: no function reachable from any wrapper's Run writes a package-level variable (cells would read each other's intermediate values)")
